@@ -10,7 +10,8 @@ package propertyf
 
 //@ func (*StatPropMsgHead).ResetDefault
 //@   requires st != nil
-//@   modifies *st
+//@   modifies st.IPropertyVer
+//@   ensures [C04] st.IPropertyVer == 1
 //@   safety [C05]
 //
 //@ func (*StatPropMsgHead).ReadFrom
@@ -21,6 +22,44 @@ package propertyf
 //@   allocates
 //@   ensures [C05] readBuf.buf.i >= p0
 //@   ensures [C05] validR(readBuf)
+//@   let src = readBuf.buf.src
+//@   let d0 = readBuf.depth
+//@   let q0 = readBuf.buf.i
+//@   let k1 = decStrK(src, q0, 0, true, d0)
+//@   let q1 = (k1 == 0 ? decStrP(src, q0, 0, d0) : seekP(src, q0, 0, d0))
+//@   let ok1 = (k1 == 0 || (k1 == 1 && (seekK(src, q0, 0, d0) == 2 || (seekK(src, q0, 0, d0) == 1 && seekCanon(src, q0, 0, d0)))))
+//@   let k2 = decStrK(src, q1, 1, true, d0)
+//@   let q2 = (k2 == 0 ? decStrP(src, q1, 1, d0) : seekP(src, q1, 1, d0))
+//@   let ok2 = ok1 && (k2 == 0 || (k2 == 1 && (seekK(src, q1, 1, d0) == 2 || (seekK(src, q1, 1, d0) == 1 && seekCanon(src, q1, 1, d0)))))
+//@   let k3 = decStrK(src, q2, 2, true, d0)
+//@   let q3 = (k3 == 0 ? decStrP(src, q2, 2, d0) : seekP(src, q2, 2, d0))
+//@   let ok3 = ok2 && (k3 == 0 || (k3 == 1 && (seekK(src, q2, 2, d0) == 2 || (seekK(src, q2, 2, d0) == 1 && seekCanon(src, q2, 2, d0)))))
+//@   let k4 = decStrK(src, q3, 3, false, d0)
+//@   let q4 = (k4 == 0 ? decStrP(src, q3, 3, d0) : seekP(src, q3, 3, d0))
+//@   let ok4 = ok3 && (k4 == 0 || (k4 == 1 && (seekK(src, q3, 3, d0) == 2 || (seekK(src, q3, 3, d0) == 1 && seekCanon(src, q3, 3, d0)))))
+//@   let k5 = decStrK(src, q4, 4, false, d0)
+//@   let q5 = (k5 == 0 ? decStrP(src, q4, 4, d0) : seekP(src, q4, 4, d0))
+//@   let ok5 = ok4 && (k5 == 0 || (k5 == 1 && (seekK(src, q4, 4, d0) == 2 || (seekK(src, q4, 4, d0) == 1 && seekCanon(src, q4, 4, d0)))))
+//@   let k6 = decStrK(src, q5, 5, false, d0)
+//@   let q6 = (k6 == 0 ? decStrP(src, q5, 5, d0) : seekP(src, q5, 5, d0))
+//@   let ok6 = ok5 && (k6 == 0 || (k6 == 1 && (seekK(src, q5, 5, d0) == 2 || (seekK(src, q5, 5, d0) == 1 && seekCanon(src, q5, 5, d0)))))
+//@   let k7 = decStrK(src, q6, 6, false, d0)
+//@   let q7 = (k7 == 0 ? decStrP(src, q6, 6, d0) : seekP(src, q6, 6, d0))
+//@   let ok7 = ok6 && (k7 == 0 || (k7 == 1 && (seekK(src, q6, 6, d0) == 2 || (seekK(src, q6, 6, d0) == 1 && seekCanon(src, q6, 6, d0)))))
+//@   let k8 = decIntK(src, q7, 7, false, 4, d0)
+//@   let q8 = (k8 == 0 ? decIntP(src, q7, 7, d0) : seekP(src, q7, 7, d0))
+//@   let ok8 = ok7 && (k8 == 0 || (k8 == 1 && (seekK(src, q7, 7, d0) == 2 || (seekK(src, q7, 7, d0) == 1 && seekCanon(src, q7, 7, d0)))))
+//@   opaque [C04] *
+//@   perreturn
+//@   ensures [C04] (ok1 && err == nil) ==> st.ModuleName == (k1 == 0 ? decStrV(src, q0, 0, d0) : old(st.ModuleName))
+//@   ensures [C04] (ok2 && err == nil) ==> st.Ip == (k2 == 0 ? decStrV(src, q1, 1, d0) : old(st.Ip))
+//@   ensures [C04] (ok3 && err == nil) ==> st.PropertyName == (k3 == 0 ? decStrV(src, q2, 2, d0) : old(st.PropertyName))
+//@   ensures [C04] (ok4 && err == nil) ==> st.SetName == (k4 == 0 ? decStrV(src, q3, 3, d0) : old(st.SetName))
+//@   ensures [C04] (ok5 && err == nil) ==> st.SetArea == (k5 == 0 ? decStrV(src, q4, 4, d0) : old(st.SetArea))
+//@   ensures [C04] (ok6 && err == nil) ==> st.SetID == (k6 == 0 ? decStrV(src, q5, 5, d0) : old(st.SetID))
+//@   ensures [C04] (ok7 && err == nil) ==> st.SContainer == (k7 == 0 ? decStrV(src, q6, 6, d0) : old(st.SContainer))
+//@   ensures [C04] (ok8 && err == nil) ==> st.IPropertyVer == (k8 == 0 ? decIntV(src, q7, 7, d0) : 1)
+//@   ensures [C04] ok8 ==> (err == nil && readBuf.buf.i == q8)
 //@   safety [C05]
 //
 //@ func (*StatPropMsgHead).ReadBlock
@@ -53,7 +92,7 @@ package propertyf
 //
 //@ func (*StatPropInfo).ResetDefault
 //@   requires st != nil
-//@   modifies *st
+//@   pure
 //@   safety [C05]
 //
 //@ func (*StatPropInfo).ReadFrom
@@ -64,6 +103,20 @@ package propertyf
 //@   allocates
 //@   ensures [C05] readBuf.buf.i >= p0
 //@   ensures [C05] validR(readBuf)
+//@   let src = readBuf.buf.src
+//@   let d0 = readBuf.depth
+//@   let q0 = readBuf.buf.i
+//@   let k1 = decStrK(src, q0, 0, true, d0)
+//@   let q1 = (k1 == 0 ? decStrP(src, q0, 0, d0) : seekP(src, q0, 0, d0))
+//@   let ok1 = (k1 == 0 || (k1 == 1 && (seekK(src, q0, 0, d0) == 2 || (seekK(src, q0, 0, d0) == 1 && seekCanon(src, q0, 0, d0)))))
+//@   let k2 = decStrK(src, q1, 1, true, d0)
+//@   let q2 = (k2 == 0 ? decStrP(src, q1, 1, d0) : seekP(src, q1, 1, d0))
+//@   let ok2 = ok1 && (k2 == 0 || (k2 == 1 && (seekK(src, q1, 1, d0) == 2 || (seekK(src, q1, 1, d0) == 1 && seekCanon(src, q1, 1, d0)))))
+//@   opaque [C04] *
+//@   perreturn
+//@   ensures [C04] (ok1 && err == nil) ==> st.Policy == (k1 == 0 ? decStrV(src, q0, 0, d0) : old(st.Policy))
+//@   ensures [C04] (ok2 && err == nil) ==> st.Value == (k2 == 0 ? decStrV(src, q1, 1, d0) : old(st.Value))
+//@   ensures [C04] ok2 ==> (err == nil && readBuf.buf.i == q2)
 //@   safety [C05]
 //
 //@ func (*StatPropInfo).ReadBlock
